@@ -1,6 +1,7 @@
 package main
 
 import (
+	"go/ast"
 	"fmt"
 	"go/types"
 	"sort"
@@ -49,6 +50,9 @@ type Roles struct {
 	Pools        []*ssa.Global               // package-level sync.Pool vars
 	PoolElem     map[*ssa.Global]types.Type  // pool var -> element struct type (pointee)
 	PooledTypes  map[string]bool             // type string of pointee types that are pooled
+	// the unexported methods of the ZogSchema interface, found by signature (and, for the two that take
+	// a *SchemaCtx, by which of them the exported Parse entry points reach): renaming them changes nothing
+	MProcess, MValidate, MGetType, MSetCoercer string
 	kindFieldSet map[*types.Var]*types.Named // every field of a schema kind struct
 	// canonical role of an unexported field, found by its type or by the exported builder that writes it
 	// (tests, required, postTransforms, coercer, defaultVal, catch, isNot, schema; tag, value for providers),
@@ -70,6 +74,24 @@ func structField(n *types.Named, name string) *types.Var {
 		}
 	}
 	return nil
+}
+
+// implementsByMethodNames: a generic named type has a method for every method of the interface
+// (types.Implements needs an instantiated type).
+func implementsByMethodNames(n *types.Named, it *types.Interface) bool {
+	if it == nil {
+		return false
+	}
+	have := map[string]bool{}
+	for i := 0; i < n.NumMethods(); i++ {
+		have[n.Method(i).Name()] = true
+	}
+	for i := 0; i < it.NumMethods(); i++ {
+		if !have[it.Method(i).Name()] {
+			return false
+		}
+	}
+	return it.NumMethods() > 0
 }
 
 func (P *Prog) discoverRoles() error {
@@ -143,16 +165,11 @@ func (P *Prog) discoverRoles() error {
 		if _, isStruct := n.Underlying().(*types.Struct); !isStruct {
 			continue
 		}
-		// method set of *T must contain process/validate/getType/setCoercer
-		has := 0
-		for i := 0; i < n.NumMethods(); i++ {
-			switch n.Method(i).Name() {
-			case "process", "validate", "getType", "setCoercer":
-				has++
+		// a schema kind: *T implements the ZogSchema interface
+		if R.ZogSchema == nil || !types.Implements(types.NewPointer(n), R.ZogSchema) {
+			if tp := n.TypeParams(); tp == nil || tp.Len() == 0 || !implementsByMethodNames(n, R.ZogSchema) {
+				continue
 			}
-		}
-		if has != 4 {
-			continue
 		}
 		R.Kinds = append(R.Kinds, n)
 		R.KindByName[name] = n
@@ -164,6 +181,81 @@ func (P *Prog) discoverRoles() error {
 	sort.Slice(R.Kinds, func(i, j int) bool { return R.Kinds[i].Obj().Name() < R.Kinds[j].Obj().Name() })
 	if len(R.Kinds) < 9 {
 		return fmt.Errorf("vacuous: %d schema kinds found, floor 9", len(R.Kinds))
+	}
+	// the interface's methods by signature
+	var ctxMethods []string
+	for i := 0; i < R.ZogSchema.NumMethods(); i++ {
+		m := R.ZogSchema.Method(i)
+		sig := m.Type().(*types.Signature)
+		switch {
+		case sig.Params().Len() == 1 && sig.Results().Len() == 0 && P.isPtrTo(sig.Params().At(0).Type(), R.SchemaCtx):
+			ctxMethods = append(ctxMethods, m.Name())
+		case sig.Params().Len() == 0 && sig.Results().Len() == 1 && strings.HasSuffix(types.TypeString(sig.Results().At(0).Type(), nil), "ZogType"):
+			R.MGetType = m.Name()
+		case sig.Params().Len() == 1 && sig.Results().Len() == 0:
+			if fs, ok := sig.Params().At(0).Type().Underlying().(*types.Signature); ok && fs.Params().Len() == 1 && fs.Results().Len() == 2 {
+				R.MSetCoercer = m.Name()
+			}
+		}
+	}
+	if len(ctxMethods) != 2 || R.MGetType == "" || R.MSetCoercer == "" {
+		return fmt.Errorf("unresolved anchors: the ZogSchema interface does not have the expected four methods by signature (two taking *SchemaCtx: %v, type getter %q, coercer setter %q)", ctxMethods, R.MGetType, R.MSetCoercer)
+	}
+	// which of the two *SchemaCtx methods is the Parse-mode one: the one the exported Parse methods reach
+	votes := map[string]int{}
+	for _, fn := range P.Funcs {
+		if fn.Name() != "Parse" || fn.Parent() != nil || fn.Signature.Recv() == nil || !R.isKind(fn.Signature.Recv().Type()) {
+			continue
+		}
+		seen := map[*ssa.Function]bool{}
+		var walk func(f *ssa.Function, d int)
+		walk = func(f *ssa.Function, d int) {
+			if f == nil || seen[f] || d > 3 || f.Blocks == nil {
+				return
+			}
+			seen[f] = true
+			for _, a := range f.AnonFuncs {
+				walk(a, d)
+			}
+			eachInstr(f, func(_ *ssa.BasicBlock, _ int, in ssa.Instruction) {
+				c, ok := in.(ssa.CallInstruction)
+				if !ok {
+					return
+				}
+				if c.Common().IsInvoke() {
+					for _, nm := range ctxMethods {
+						if c.Common().Method.Name() == nm {
+							votes[nm]++
+						}
+					}
+					return
+				}
+				cal := c.Common().StaticCallee()
+				if cal == nil {
+					return
+				}
+				if o := cal.Origin(); o != nil {
+					cal = o
+				}
+				for _, nm := range ctxMethods {
+					if cal.Name() == nm && cal.Signature.Recv() != nil && R.isKind(cal.Signature.Recv().Type()) {
+						votes[nm]++
+						return
+					}
+				}
+				if inModule(funcPkgPath(cal)) && !ast.IsExported(cal.Name()) {
+					walk(cal, d+1)
+				}
+			})
+		}
+		walk(fn, 0)
+	}
+	R.MProcess, R.MValidate = ctxMethods[0], ctxMethods[1]
+	if votes[ctxMethods[1]] > votes[ctxMethods[0]] {
+		R.MProcess, R.MValidate = ctxMethods[1], ctxMethods[0]
+	}
+	if votes[R.MProcess] == 0 || votes[R.MValidate] >= votes[R.MProcess] {
+		return fmt.Errorf("unresolved anchors: cannot tell the Parse-mode node method from the Validate-mode one (votes %v)", votes)
 	}
 	for _, fn := range P.Funcs {
 		if fn.Signature.Recv() == nil || fn.Parent() != nil {
@@ -182,10 +274,10 @@ func (P *Prog) discoverRoles() error {
 			continue
 		}
 		switch fn.Name() {
-		case "process":
+		case R.MProcess:
 			R.Process[n.Obj().Name()] = fn
 			R.Dispatch[fn] = "process"
-		case "validate":
+		case R.MValidate:
 			R.Validate[n.Obj().Name()] = fn
 			R.Dispatch[fn] = "validate"
 		case "Parse", "Validate":
